@@ -359,6 +359,11 @@ class Engine:
                 if ctx.branch(z3.Bool(f"{name}.is[{i}]"), f"{name} == {v!r}"):
                     return self.const_value(ctx, v)
             return self.const_value(ctx, shape.values[-1])
+        if k == "variant":
+            for i, sh in enumerate(shape.shapes[:-1]):
+                if ctx.branch(z3.Bool(f"{name}.variant[{i}]"), f"{name} is variant {i}"):
+                    return self.make_sym(ctx, sh, name)
+            return self.make_sym(ctx, shape.shapes[-1], name)
         if k == "task":
             oc = z3.Int(name + ".outcome")
             ctx.assume(z3.Or(*[oc == TASK_OUTCOMES.index(o) for o in shape.outcomes]))
@@ -830,6 +835,8 @@ class Engine:
                     it.assign_target(node.target, self.make_sym(ctx, stream.shape, fresh_name("item")), fr)
                 elif is_for:
                     it.assign_target(node.target, seq.get(iz), fr)
+                for line in spec.get("ghost_pre", []):
+                    it.exec_block(ast.parse(line).body, Frame(self.contract_module(self.current), fr.locals, closure=None))
                 it.exec_block(node.body, fr)
             except _Continue:
                 pass
@@ -841,6 +848,21 @@ class Engine:
                 if is_for:
                     fr.locals[idx] = mk(iz + 1, "int")
                 check_invs("preserve")
+                # transition clauses: must hold after every iteration (checked, never assumed)
+                sfr2 = self.spec_frame(fr)
+                for nm, expr in spec.get("step", {}).items():
+                    g = self.eval_clause(it, expr, sfr2)
+                    ctx.check(f"{fname}::loop[{key}].step.{nm}", g, kind="loop_preserve", state=dict(fr.locals))
+                rep_ = getattr(self, "current_rep", None)
+                if rep_ is not None and getattr(self.current, "never_returns", False):
+                    # a function that never returns: a completed loop iteration plays the role of an exit in the
+                    # vacuity guard (its path condition must have a model)
+                    rep_.exits += 1
+                    nv = ctx.nonvacuous() if rep_.live_exits == 0 else "skipped"
+                    if nv is True:
+                        rep_.live_exits += 1
+                    elif nv is None:
+                        rep_.unknown_exits += 1
                 raise PathEnd()
             return
         it.exec_block(node.orelse, fr)
@@ -1171,6 +1193,7 @@ class Engine:
         old_heap = ctx.snapshot_heap()
         ctx.old = (old_locals, old_heap)     # loop invariants may refer to the entry state
         outcome = None
+        self.current_rep = rep
         try:
             it.exec_block(fn.body, fr)
             outcome = ("return", None)
